@@ -50,7 +50,7 @@ type msAsset struct {
 func (cw *ccWorld) assetsTerm(l []*fpb.Asset) string {
 	var items []string
 	for _, a := range l {
-		s, g := cw.tokN(a.GetGroup())
+		s, g := cw.tokN3(a.GetGroup())
 		items = append(items, fmt.Sprintf("AS %d %d %s", s, g, coqZ(new(big.Int).SetBytes(a.GetAmount()))))
 	}
 	return coqList(items)
@@ -59,7 +59,7 @@ func (cw *ccWorld) assetsTerm(l []*fpb.Asset) string {
 func (cw *ccWorld) msAssetsTerm(l []msAsset) string {
 	var items []string
 	for _, a := range l {
-		s, g := cw.tokN(a.group)
+		s, g := cw.tokN3(a.group)
 		items = append(items, fmt.Sprintf("AS %d %d %s", s, g, coqZi(a.amt)))
 	}
 	return coqList(items)
